@@ -41,6 +41,11 @@ impl Domain {
                 for e in rd.flatten() {
                     let p = e.path();
                     if p.is_dir() {
+                        // directories below the domain-wide ones (root/nodes, root/services, ...) belong to one node or service
+                        let rel = p.strip_prefix(base).unwrap();
+                        if rel.components().count() >= 2 {
+                            out.push(format!("{}/", rel.to_string_lossy()));
+                        }
                         walk(&p, base, out);
                     } else {
                         out.push(p.strip_prefix(base).unwrap().to_string_lossy().to_string());
